@@ -125,4 +125,145 @@ theorem setitem_good_sub : ∀ (s : List Nat) (T : Ty) (r : PlaceId) (pv : PVal)
   | _ :: _, .node _ _, _, .hole, _, _, _, _, _, _, _, hg, _, _, _, _ => by simp [Good] at hg
   | _ :: _, .node _ _, _, .val _, _, _, _, _, _, _, _, hg, _, _, _, _ => by simp [Good] at hg
 
+theorem totals_modify : ∀ (ps : List PVal) (j : Nat) (g : PVal → PVal) (vs : List Val),
+    (∀ q v, ps[j]? = some q → (g q).total = some v → q.total = some v) →
+    PVal.totals (ps.modify j g) = some vs → PVal.totals ps = some vs
+  | [], _, _, _, _, h => by simpa using h
+  | q :: qs, 0, g, vs, hg, h => by
+    simp only [List.modify_zero_cons] at h
+    obtain ⟨v, vs', e, h1, h2⟩ := totals_cons h
+    subst e
+    simp only [PVal.totals, hg q v (by simp) h1, h2]
+  | q :: qs, j + 1, g, vs, hg, h => by
+    simp only [List.modify_succ_cons] at h
+    obtain ⟨v, vs', e, h1, h2⟩ := totals_cons h
+    subst e
+    have := totals_modify qs j g vs' (fun q' v' hq' => hg q' v' (by simpa using hq')) h2
+    simp only [PVal.totals, h1, this]
+
+/-- a fully defined value after moving a sub-place out was the same before -/
+theorem total_modify_moved : ∀ (s : List Nat) (T : Ty) (pv : PVal) (t' : Ty) (v : Val),
+    T.at s = some t' → (pv.modify (moved t') s).total = some v → pv.total = some v
+  | [], T, pv, t', v, hat, h => by
+    have := at_nil hat; subst this
+    exact total_moved t' pv v (by simpa [PVal.modify] using h)
+  | _ :: _, .leaf _ _, _, _, _, hat, _ => by simp [Ty.at] at hat
+  | j :: s, .node k cs, .tup ps, t', v, hat, h => by
+    obtain ⟨tj, _, hat'⟩ := at_node_cons hat
+    simp only [PVal.modify, PVal.total] at h ⊢
+    cases hm : PVal.totals (ps.modify j fun q => PVal.modify (moved t') q s) with
+    | none => simp [hm] at h
+    | some vs =>
+      rw [totals_modify ps j _ vs (fun q v' _ hq => total_modify_moved s tj q t' v' hat' hq) hm]
+      simpa [hm] using h
+  | _ :: _, .node _ _, .hole, _, _, _, h => by simpa [PVal.modify] using h
+  | _ :: _, .node _ _, .val _, _, _, _, h => by simpa [PVal.modify] using h
+
+/-- `dfg[sub-place]` in a `Good` state returns the reference value of the sub-place and leaves a
+    `Good` state for the reference value with that sub-place moved out -/
+theorem getitem_good_sub : ∀ (s : List Nat) (T : Ty) (r : PlaceId) (pv : PVal) (L : Locals)
+    (n : Nat) (env : Env) (t' : Ty) (pv' : PVal) (v : Val),
+    Good n L env r T pv → T.at s = some t' → pv.at s = some pv' → pv'.total = some v →
+    ∃ w' L2 n2 ops, getitem L n (sub r s) t' = .ok (w', L2, n2, ops) ∧ n ≤ n2 ∧ w'.node < n2 ∧
+      (∀ q, ¬ sub r s <:+ q → L2 q = L q) ∧
+      ∃ env2, evalOps env ops = some env2 ∧ env2 w' = some v ∧
+        (∀ x : Wire, x.node < n → env2 x = env x) ∧ Good n2 L2 env2 r T (pv.modify (moved t') s)
+  | [], T, r, pv, L, n, env, t', pv', v, hg, hat, hpv, hv => by
+    have := at_nil hat; subst this
+    simp only [PVal.at, Option.some.injEq] at hpv
+    subst hpv
+    obtain ⟨w', L2, n2, ops, e, a1, a2, _, a4, env2, a5, a6, a7, a8⟩ :=
+      getitem_good t' L n r env pv v hg hv
+    simp only [sub, List.reverse_nil, List.nil_append, PVal.modify]
+    exact ⟨w', L2, n2, ops, e, a1, a2, a4, env2, a5, a6, a7, a8⟩
+  | _ :: _, .leaf _ _, _, _, _, _, _, _, _, _, _, hat, _, _ => by simp [Ty.at] at hat
+  | j :: s, .node k cs, r, .tup ps, L, n, env, t', pv', v, hg, hat, hpv, hv => by
+    obtain ⟨tj, hj, hat'⟩ := at_node_cons hat
+    simp only [Good] at hg
+    obtain ⟨pj, hpj, hgj⟩ := GoodList.get cs 0 ps j tj hg.2 (Nat.zero_le j) (by simpa using hj)
+    simp only [Nat.sub_zero] at hpj
+    have hpv'' : pj.at s = some pv' := by simpa [PVal.at, hpj] using hpv
+    obtain ⟨w', L2, n2, ops, e, a1, a2, a4, env2, a5, a6, a7, a8⟩ :=
+      getitem_good_sub s tj (j :: r) pj L n env t' pv' v hgj hat' hpv'' hv
+    rw [sub_cons]
+    refine ⟨w', L2, n2, ops, e, a1, a2, a4, env2, a5, a6, a7, ?_⟩
+    simp only [PVal.modify, Good]
+    constructor
+    · intro w v'' hw hv''
+      have hr : ¬ sub (j :: r) s <:+ r := fun h => by
+        have := h.length_le
+        simp [sub_length] at this
+        omega
+      rw [a4 r hr] at hw
+      have htot : (PVal.tup ps).total = some v'' :=
+        total_modify_moved (j :: s) (.node k cs) (.tup ps) t' v'' hat (by simpa [PVal.modify] using hv'')
+      have := hg.1 w v'' hw htot
+      exact ⟨by omega, by rw [a7 w this.1]; exact this.2⟩
+    · have := GoodList.update (fun q => PVal.modify (moved t') q s) j cs 0 ps (Nat.zero_le j)
+        (n' := n2) (L' := L2) (env' := env2)
+        (fun k tk pk _ hne _ _ hgood =>
+          Good.transport a1 a7 tk (k :: r) pk
+            (fun q hq _ => a4 q (sibling_disjoint hne hq).1)
+            (Or.inl (a4 _ (sibling_disjoint hne (List.suffix_refl _)).1)) hgood)
+        (fun tj' pj' h1 h2 _ => by
+          simp only [Nat.sub_zero] at h1 h2
+          rw [hj] at h1; rw [hpj] at h2
+          simp only [Option.some.injEq] at h1 h2
+          subst h1; subst h2
+          exact a8) hg.2
+      simpa using this
+  | _ :: _, .node _ _, _, .hole, _, _, _, _, _, _, hg, _, _, _ => by simp [Good] at hg
+  | _ :: _, .node _ _, _, .val _, _, _, _, _, _, _, hg, _, _, _ => by simp [Good] at hg
+
+mutual
+theorem blank_good (n : Nat) (env : Env) : ∀ (t : Ty) (p : PlaceId),
+    Good n Locals.empty env p t (blank t)
+  | .leaf _ _, _ => by simp [Good, blank]
+  | .node _ cs, p => by
+    simp only [Good, blank]
+    exact ⟨fun w v hw _ => by simp [Locals.empty] at hw, blanks_good n env cs p 0⟩
+theorem blanks_good (n : Nat) (env : Env) : ∀ (ts : List Ty) (p : PlaceId) (i : Nat),
+    GoodList n Locals.empty env p i ts (blanks ts)
+  | [], _, _ => by simp [GoodList, blanks]
+  | t :: ts, p, i => by
+    simp only [GoodList, blanks]
+    exact ⟨blank_good n env t (i :: p), blanks_good n env ts p (i + 1)⟩
+end
+
+/-- the script theorem, generalised to any `Good` state -/
+theorem runScript_good (T : Ty) (r : PlaceId) (hr : r ≠ []) (env0 : Env) (n0 : Nat) :
+    ∀ (script : List SOp) (pv : PVal) (vs : List Val) (L : Locals) (n : Nat) (env : Env),
+      RefRun T env0 n0 script pv vs → Good n L env r T pv → n0 ≤ n →
+      (∀ x : Wire, x.node < n0 → env x = env0 x) →
+      ∃ ws L2 n2 ops, runScript T r script L n = .ok (ws, L2, n2, ops) ∧
+        ∃ env2, evalOps env ops = some env2 ∧ env2.all ws = some vs ∧
+          (∀ x : Wire, x.node < n → env2 x = env x)
+  | [], pv, vs, L, n, env, href, _, _, _ => by
+    cases href
+    exact ⟨[], L, n, [], rfl, env, rfl, rfl, fun _ _ => rfl⟩
+  | .set s w :: rest, pv, vs, L, n, env, href, hg, hn, henv => by
+    cases href with
+    | @set _ _ t' v _ _ _ hat hw hlt hs hrest =>
+      have hw' : env w = some v := by rw [henv w hlt]; exact hw
+      obtain ⟨a1, env1, a2, a3, a4⟩ :=
+        setitem_good_sub s T r pv L n env _ w _ hr hg hat hw' (by omega) hs
+      obtain ⟨ws, L2, n2, o2, e, env2, b1, b2, b3⟩ :=
+        runScript_good T r hr env0 n0 rest _ vs _ _ env1 hrest a4 (by omega)
+          (fun x hx => by rw [a3 x (by omega)]; exact henv x hx)
+      refine ⟨ws, L2, n2, (setitem L n (sub r s) false w t').2.2 ++ o2, by simp only [runScript, hat, e], env2, ?_, b2, ?_⟩
+      · simp only [evalOps_append, a2]; exact b1
+      · intro x hx; rw [b3 x (by omega), a3 x hx]
+  | .get s :: rest, pv, vs, L, n, env, href, hg, hn, henv => by
+    cases href with
+    | get hat hpv hv hrest =>
+      obtain ⟨w', L1, n1, o1, e1, a1, a2, _, env1, a5, a6, a7, a8⟩ :=
+        getitem_good_sub s T r pv L n env _ _ _ hg hat hpv hv
+      obtain ⟨ws, L2, n2, o2, e, env2, b1, b2, b3⟩ :=
+        runScript_good T r hr env0 n0 rest _ _ L1 n1 env1 hrest a8 (by omega)
+          (fun x hx => by rw [a7 x (by omega)]; exact henv x hx)
+      refine ⟨w' :: ws, L2, n2, o1 ++ o2, by simp only [runScript, hat, e1, e], env2, ?_, ?_, ?_⟩
+      · simp only [evalOps_append, a5]; exact b1
+      · simp only [Env.all, b3 w' a2, a6, b2]
+      · intro x hx; rw [b3 x (by omega), a7 x hx]
+
 end GuppyVerif.Wiring
